@@ -46,6 +46,88 @@ impl<'a> RngCore for Script<'a> {
     }
 }
 
+/// How one draw consumes the RNG stream, *learned from the implementation*: value byte j (little-endian
+/// image) is a copy of stream byte `pos[j]`, and one draw consumes `len` bytes.  The property asks that every
+/// digit is derived from the RNG output in little-endian order (pos strictly increasing), not that the stream
+/// is consumed without gaps; for the current code pos = 0..BYTES and len = BYTES (`identity`).
+#[derive(Clone, Debug)]
+pub struct WordMap {
+    pub pos: Vec<usize>,
+    pub len: usize,
+    pub identity: bool,
+}
+impl WordMap {
+    /// the script that makes consecutive draws return the given images
+    pub fn script(&self, images: &[&[u8]]) -> Vec<u8> {
+        if self.identity {
+            return images.concat();
+        }
+        let mut s: Vec<u8> = (0..self.len * images.len()).map(|i| 0xA5u8 ^ (i as u8).wrapping_mul(29)).collect();
+        for (k, img) in images.iter().enumerate() {
+            for (j, b) in img.iter().enumerate() {
+                s[k * self.len + self.pos[j]] = *b;
+            }
+        }
+        s
+    }
+    fn learn(nb: usize, draw: &dyn Fn(&mut Script) -> Vec<u8>) -> Result<WordMap, String> {
+        let n = 16 * nb + 64;
+        let a: Vec<u8> = (0..n).map(|i| (i % 251) as u8 + 1).collect();
+        let b: Vec<u8> = (0..n).map(|i| (i / 251) as u8 + 1).collect();
+        let (mut ra, mut rb) = (Script::new(&a), Script::new(&b));
+        let r = std::panic::catch_unwind(std::panic::AssertUnwindSafe(|| (draw(&mut ra), draw(&mut rb))));
+        let (ia, ib) = match r {
+            Ok(x) => x,
+            Err(_) => return Err("the draw panicked".into()),
+        };
+        if ra.pos != rb.pos {
+            return Err(format!("the number of RNG bytes consumed by one draw depends on their content ({} / {})", ra.pos, rb.pos));
+        }
+        let len = ra.pos;
+        let mut pos = Vec::with_capacity(nb);
+        for j in 0..nb {
+            if ia[j] == 0 || ib[j] == 0 {
+                return Err(format!("byte {} of the value is not taken from the RNG output (always zero)", j));
+            }
+            let p = (ib[j] as usize - 1) * 251 + (ia[j] as usize - 1);
+            if p >= len {
+                return Err(format!("byte {} of the value is not a copy of a consumed RNG byte", j));
+            }
+            if let Some(&q) = pos.last() {
+                if p <= q {
+                    return Err(format!("byte {} of the value comes from stream position {} after byte {} from position {}: not little-endian order", j, p, j - 1, q));
+                }
+            }
+            pos.push(p);
+        }
+        let identity = len == nb && pos.iter().enumerate().all(|(j, p)| j == *p);
+        Ok(WordMap { pos, len, identity })
+    }
+}
+
+/// the stream map of `rng.gen::<T>()` (Standard)
+pub fn standard_map<T: Subj>() -> Result<WordMap, String>
+where
+    Standard: Distribution<T>,
+{
+    WordMap::learn(T::bytes(), &|rng: &mut Script| {
+        let x: T = rng.gen();
+        Subj::le(&x)
+    })
+}
+
+/// the stream map of a one-element slice fill
+pub fn fill_map<T: Subj>() -> Result<WordMap, String>
+where
+    bnum::random::Slice<T>: Fill,
+{
+    WordMap::learn(T::bytes(), &|rng: &mut Script| {
+        let mut v = vec![T::from_le(&vec![0u8; T::bytes()]); 1];
+        let _ = bnum::random::try_fill_slice(&mut v, rng);
+        Subj::le(&v[0])
+    })
+}
+
 pub const SAMPLERS: [&str; 6] = ["Uniform::new_inclusive.sample", "Uniform::new.sample", "gen_range(a..=b)", "gen_range(a..b)", "sample_single_inclusive", "sample_single"];
 
 /// draw one value from [low, high] with sampler k (the exclusive forms get high + 1; None if high = MAX)
@@ -98,7 +180,7 @@ where
 }
 
 /// exact preimage counts of one range under sampler k over ALL first words of the type (BITS <= 24)
-fn uniformity<T>(config: &str, k: usize, low: T, high: T, l: &mut Local)
+fn uniformity<T>(config: &str, k: usize, low: T, high: T, map: &WordMap, l: &mut Local)
 where
     T: Subj + SampleUniform + PartialOrd,
 {
@@ -116,12 +198,19 @@ where
     let mut accepted = 0u64;
     for w in 0..(1u64 << bits) {
         word.copy_from_slice(&w.to_le_bytes()[..nb]);
-        let mut rng = Script::new(&word);
+        let mapped;
+        let script: &[u8] = if map.identity {
+            &word
+        } else {
+            mapped = map.script(&[&word]);
+            &mapped
+        };
+        let mut rng = Script::new(script);
         let v = match draw(k, low, high, hp, &mut rng) {
             Some(v) => v,
             None => return,
         };
-        if rng.pos == nb {
+        if rng.pos == map.len {
             // accepted on the first word
             accepted += 1;
             let vi = v.z::<i128>() - lowi;
@@ -154,6 +243,37 @@ where
 {
     let config = T::type_name();
     let nb = T::bytes();
+    // the stream maps of one draw / one element fill, learned from the implementation; a map that cannot
+    // be learned (a value byte that is not a copy of a stream byte, or bytes out of little-endian order)
+    // is itself a violation of the statement
+    let maps = (standard_map::<T>(), fill_map::<T>());
+    let (map, fmap) = match maps {
+        (Ok(a), Ok(b)) => (a, b),
+        (a, b) => {
+            if run.in_replay() && run.replay_target(&config, "stream map").is_none() {
+                return;
+            }
+            if !run.in_replay() && !run.wants(&config) {
+                return;
+            }
+            let mut l = Local::default();
+            for (what, m) in [("Standard", a), ("Fill (one element)", b)] {
+                if let Err(why) = m {
+                    let e: Expect<Z> = Expect::Is(Obs::S("every byte of the value is a copy of a consumed RNG byte, in little-endian order".into()));
+                    l.check(&config, "stream map", || vec![format!("s:{}", what)], 0, &e, &Obs::S(format!("{}: {}", what, why)));
+                }
+            }
+            if run.in_replay() {
+                match l.viols.first() {
+                    Some(v) => println!("  expected: {}\n  observed: {}\nREPRODUCED", v.expected, v.observed),
+                    None => println!("NOT-REPRODUCED"),
+                }
+            } else {
+                run.merge(&config, "stream map of Standard / Fill learned from two coded scripts", "Standard / Fill", 2, l);
+            }
+            return;
+        }
+    };
     // ---- replay -------------------------------------------------------------------------------
     if run.in_replay() {
         for k in 0..6 {
@@ -173,7 +293,7 @@ where
         if let Some((st, aux)) = run.replay_target(&config, "uniform preimages") {
             let (low, high) = (T::from_le(&unhex(&st[0])), T::from_le(&unhex(&st[1])));
             let mut l = Local::default();
-            uniformity(&config, (aux - 100) as usize, low, high, &mut l);
+            uniformity(&config, (aux - 100) as usize, low, high, &map, &mut l);
             match l.viols.first() {
                 Some(v) => println!("  expected: {}\n  observed: {}\nREPRODUCED", v.expected, v.observed),
                 None => println!("NOT-REPRODUCED"),
@@ -184,7 +304,7 @@ where
             if let Some((st, _)) = run.replay_target(&config, op) {
                 let script = crate::strings::unbhex(&st[0]);
                 let mut l = Local::default();
-                standard_and_fill::<T>(&config, &script, &mut l);
+                standard_and_fill::<T>(&config, &script, &map, &fmap, &mut l);
                 match l.viols.iter().find(|v| v.op == op) {
                     Some(v) => println!("  expected: {}\n  observed: {}\nREPRODUCED", v.expected, v.observed),
                     None => println!("NOT-REPRODUCED"),
@@ -220,26 +340,25 @@ where
     }
     let l = par_chunks(threads, scripts.len(), |lo, hi, l| {
         for s in &scripts[lo..hi] {
-            standard_and_fill::<T>(&cfg, s, l);
+            standard_and_fill::<T>(&cfg, s, &map, &fmap, l);
         }
     });
     run.merge(&config, "scripts = byte images of values (x3) + a distinct-byte script", "Standard / Fill", scripts.len() as u64, l);
 
     // ---- ranges ---------------------------------------------------------------------------------
     if bits <= 64 {
-        ranges_pass::<T, i128>(run, &config, tier);
+        ranges_pass::<T, i128>(run, &config, tier, &map);
     } else {
-        ranges_pass::<T, BigRef>(run, &config, tier);
+        ranges_pass::<T, BigRef>(run, &config, tier, &map);
     }
 }
 
 /// every sampler on every (range, first word); where all first words of the type are enumerated
 /// (BITS <= 24) the exact number of accepted words per value is counted as well
-fn one_range<T, C: refmodel::ZNum>(cfg: &str, low: T, high: T, words: &[Vec<u8>], all_words: bool, explore_rejections: bool, only_k: Option<usize>, l: &mut Local)
+fn one_range<T, C: refmodel::ZNum>(cfg: &str, low: T, high: T, words: &[Vec<u8>], all_words: bool, explore_rejections: bool, only_k: Option<usize>, map: &WordMap, l: &mut Local)
 where
     T: Subj + SampleUniform + PartialOrd,
 {
-    let nb = T::bytes();
     let hp = plus_one(&high);
     let (zl, zh) = (low.z::<C>(), high.z::<C>());
     let size: usize = if all_words { zh.zsub(&zl).to_i128_opt().unwrap() as usize + 1 } else { 0 };
@@ -261,7 +380,14 @@ where
         }
         let mut broke = false;
         for w in words {
-            let mut rng = Script::new(w);
+            let mapped;
+            let script: &[u8] = if map.identity {
+                w
+            } else {
+                mapped = map.script(&[w]);
+                &mapped
+            };
+            let mut rng = Script::new(script);
             let r = std::panic::catch_unwind(std::panic::AssertUnwindSafe(|| draw(k, low, high, hp, &mut rng)));
             let st = || vec![Subj::hex(&low), Subj::hex(&high), crate::strings::bhex(w)];
             let v = match r {
@@ -282,14 +408,14 @@ where
                 broke = true;
                 continue;
             }
-            if rng.pos == nb {
+            if rng.pos == map.len {
                 if all_words {
                     counts[zv.zsub(&zl).to_i128_opt().unwrap() as usize] += 1;
                 }
             } else if explore_rejections {
                 // one deviation from the default "first word accepted": every second word
                 for w2 in 0..=255u8 {
-                    member_check(cfg, k, low, high, &[w[0], w2], l);
+                    member_check(cfg, k, low, high, &map.script(&[&w[..], &[w2]]), l);
                 }
             }
         }
@@ -308,7 +434,7 @@ where
     }
 }
 
-fn ranges_pass<T, C: refmodel::ZNum>(run: &mut Run, config: &str, tier: Tier)
+fn ranges_pass<T, C: refmodel::ZNum>(run: &mut Run, config: &str, tier: Tier, map: &WordMap)
 where
     T: Subj + SampleUniform + PartialOrd,
 {
@@ -340,7 +466,7 @@ where
     let l = par_chunks(threads, ranges.len(), |lo, hi, l| {
         for &(low, high) in &ranges[lo..hi] {
             let rej = bits == 8 && small.contains(&Subj::le(&low)) && small.contains(&Subj::le(&high));
-            one_range::<T, C>(&cfg, low, high, &words, all_words, rej, None, l);
+            one_range::<T, C>(&cfg, low, high, &words, all_words, rej, None, map, l);
         }
     });
     let label = if all_words { "ranges x ALL first words: membership + exact preimage counts (+ all second words after a rejection at 8 bits)" } else { "boundary ranges x boundary first words: membership" };
@@ -369,44 +495,58 @@ where
         let l = par_chunks(threads, ur.len() * 6, |lo, hi, l| {
             for i in lo..hi {
                 let (low, high) = ur[i / 6];
-                one_range::<T, C>(&cfg, low, high, &words, true, false, Some(i % 6), l);
+                one_range::<T, C>(&cfg, low, high, &words, true, false, Some(i % 6), map, l);
             }
         });
         run.merge(config, "selected ranges x ALL 2^24 first words: membership + exact preimage counts", "ranges", ur.len() as u64 * 6 * (1u64 << 24), l);
     }
 }
 
-/// Standard sampling = little-endian image of the first BYTES script bytes; slice fills = element-wise
-fn standard_and_fill<T>(config: &str, script: &[u8], l: &mut Local)
+/// Standard sampling returns the image placed in the stream (through the learned stream map); a slice fill
+/// of k elements equals k one-element fills in turn (element e reads the stream at e * len + pos[j])
+fn standard_and_fill<T>(config: &str, images: &[u8], map: &WordMap, fmap: &WordMap, l: &mut Local)
 where
     T: Subj,
     Standard: Distribution<T>,
     bnum::random::Slice<T>: Fill,
 {
     let nb = T::bytes();
-    let st = || vec![crate::strings::bhex(script)];
-    let elem = |i: usize| -> Vec<u8> { (0..nb).map(|j| *script.get(i * nb + j).unwrap_or(&0)).collect() };
+    let st = || vec![crate::strings::bhex(images)];
+    let elem = |i: usize| -> Vec<u8> { (0..nb).map(|j| *images.get(i * nb + j).unwrap_or(&0)).collect() };
+    let imgs: Vec<Vec<u8>> = (0..3).map(elem).collect();
     // Standard
-    let mut rng = Script::new(script);
-    let x: T = rng.gen();
-    let e: Expect<Z> = Expect::Is(Obs::P(T::from_le(&elem(0)).z::<Z>(), BigRef::from_i128(nb as i128)));
-    l.check(config, "Standard", st, 0, &e, &Obs::P(x.z::<Z>(), BigRef::from_i128(rng.pos as i128)));
+    let script = map.script(&[&imgs[0]]);
+    let mut rng = Script::new(&script);
+    let o: Obs<Z> = vengine::guard(|| {
+        let x: T = rng.gen();
+        Obs::By(Subj::le(&x))
+    });
+    let e: Expect<Z> = Expect::Is(Obs::By(imgs[0].clone()));
+    l.check(config, "Standard", st, 0, &e, &o);
     // slices of length 0..=3
     for len in 0..=3usize {
-        let want: Vec<u8> = (0..len).flat_map(|i| elem(i)).collect();
+        let refs: Vec<&[u8]> = imgs[..len].iter().map(|v| &v[..]).collect();
+        let script = fmap.script(&refs);
+        let want: Vec<u8> = imgs[..len].concat();
         let zero = T::from_le(&vec![0u8; nb]);
         let mut v = vec![zero; len];
-        let mut rng = Script::new(script);
-        let ok = bnum::random::try_fill_slice(&mut v, &mut rng).is_ok();
-        let got: Vec<u8> = v.iter().flat_map(|t| Subj::le(t)).collect();
+        let mut rng = Script::new(&script);
+        let o: Obs<Z> = vengine::guard(|| {
+            let ok = bnum::random::try_fill_slice(&mut v, &mut rng).is_ok();
+            let got: Vec<u8> = v.iter().flat_map(|t| Subj::le(t)).collect();
+            if ok { Obs::By(got) } else { Obs::S("Err".into()) }
+        });
         let e: Expect<Z> = Expect::Is(Obs::By(want.clone()));
-        l.check(config, "try_fill_slice", st, len as u64, &e, &if ok { Obs::By(got) } else { Obs::Panic });
+        l.check(config, "try_fill_slice", st, len as u64, &e, &o);
         // through the Fill trait on the wrapper
         let mut v2 = vec![zero; len];
-        let mut rng = Script::new(script);
-        let sl: &mut bnum::random::Slice<T> = unsafe { &mut *(v2.as_mut_slice() as *mut [T] as *mut bnum::random::Slice<T>) };
-        let ok = Fill::try_fill(sl, &mut rng).is_ok();
-        let got: Vec<u8> = v2.iter().flat_map(|t| Subj::le(t)).collect();
-        l.check(config, "Fill", st, len as u64, &Expect::Is(Obs::By(want)), &if ok { Obs::By::<Z>(got) } else { Obs::Panic });
+        let mut rng = Script::new(&script);
+        let o: Obs<Z> = vengine::guard(|| {
+            let sl: &mut bnum::random::Slice<T> = unsafe { &mut *(v2.as_mut_slice() as *mut [T] as *mut bnum::random::Slice<T>) };
+            let ok = Fill::try_fill(sl, &mut rng).is_ok();
+            let got: Vec<u8> = v2.iter().flat_map(|t| Subj::le(t)).collect();
+            if ok { Obs::By(got) } else { Obs::S("Err".into()) }
+        });
+        l.check(config, "Fill", st, len as u64, &Expect::Is(Obs::By(want)), &o);
     }
 }
